@@ -343,6 +343,83 @@ pub fn check_parse_edit(seed: &RefPacket, edit: u8) -> Vec<Finding> {
     }
 }
 
+/// Records obtained through the library's other constructors (TXT from a string of any length,
+/// TXT from an attribute map, in-place edits), framed between a question and a trailing A record.
+pub fn check_constructed(kind: &str, n: usize) -> Vec<Finding> {
+    use simple_dns::rdata::{RData, A, TXT};
+    use simple_dns::{Name, Question, ResourceRecord, CLASS, QCLASS, QTYPE, TYPE};
+    let case = json!({"kind": "constructed", "ctor": kind, "n": n});
+    let text: String = match kind {
+        "txt-from-str" => (0..n).map(|i| (b'a' + (i % 23) as u8) as char).collect(),
+        "txt-from-str-utf8" => (0..n).map(|i| if i % 5 == 2 { 'é' } else { 'x' }).collect(),
+        _ => String::new(),
+    };
+    let r = guarded(|| -> Result<Vec<(String, String)>, String> {
+        let mut bad = Vec::new();
+        let txt: TXT = match kind {
+            "txt-from-str" | "txt-from-str-utf8" => TXT::try_from(text.as_str()).map_err(|e| format!("TXT::try_from(&str) of {} bytes: {:?}", text.len(), e))?,
+            "txt-from-map" => {
+                let mut m = std::collections::HashMap::new();
+                for i in 0..n {
+                    m.insert(format!("key{:03}", i), if i % 3 == 0 { None } else { Some("v".repeat(i % 200)) });
+                }
+                TXT::try_from(m).map_err(|e| format!("TXT::try_from(map) with {} entries: {:?}", n, e))?
+            }
+            _ => {
+                let mut t = TXT::new();
+                for i in 0..n {
+                    t = t.with_string(if i % 2 == 0 { "abc" } else { "" }).map_err(|e| format!("{:?}", e))?;
+                }
+                t
+            }
+        };
+        let mut p = Packet::new_reply(7);
+        p.questions.push(Question::new(Name::new_unchecked("t.example.com"), QTYPE::TYPE(TYPE::TXT), QCLASS::CLASS(CLASS::IN), false));
+        p.answers.push(ResourceRecord::new(Name::new_unchecked("t.example.com"), CLASS::IN, 60, RData::TXT(txt)));
+        p.additional_records.push(ResourceRecord::new(Name::new_unchecked("t.example.com"), CLASS::IN, 61, RData::A(A { address: 0x01020304 })));
+        let plain = p.build_bytes_vec().map_err(|e| format!("build_bytes_vec: {:?}", e))?;
+        let comp = p.build_bytes_vec_compressed().map_err(|e| format!("build_bytes_vec_compressed: {:?}", e))?;
+        let mut cur = Cursor::new(Vec::new());
+        p.write_to(&mut cur).map_err(|e| format!("write_to: {:?}", e))?;
+        if cur.into_inner() != plain {
+            bad.push(("writer-differs".to_string(), "write_to(Cursor) differs from build_bytes_vec".to_string()));
+        }
+        for (mode, bytes) in [("plain", &plain), ("compressed", &comp)] {
+            match decode_packet(bytes) {
+                Err(e) => bad.push((format!("{}|framing", mode), format!("{} output not well-framed: {:?}", mode, e))),
+                Ok((d, w)) => {
+                    if w.end != bytes.len() {
+                        bad.push((format!("{}|trailing-bytes", mode), format!("{} bytes after the last counted entry", bytes.len() - w.end)));
+                    }
+                    if w.counts != [1, 1, 0, 1] {
+                        bad.push((format!("{}|counts", mode), format!("{:?}", w.counts)));
+                    }
+                    if d.additional.len() != 1 || d.additional[0].rdata != typed(1, vec![crate::refmodel::schema::Val::U32(0x01020304)]) {
+                        bad.push((format!("{}|following-record", mode), "the A record after the TXT record does not decode as written".to_string()));
+                    }
+                }
+            }
+            if Packet::parse(bytes).is_err() {
+                bad.push((format!("{}|unparseable", mode), "the library rejects its own output".to_string()));
+            }
+        }
+        Ok(bad)
+    });
+    match r {
+        Err(pn) => vec![finding(format!("C04|constructed|{}|{}", kind, pn.sig()), format!("{:?}", pn), case)],
+        Ok(Err(e)) => {
+            // refusing is allowed only where the input cannot be represented
+            let refusable = kind == "txt-from-map" || kind == "txt-strings" && n == 0;
+            if refusable || e.contains("build_bytes_vec") && n == 0 {
+                vec![]
+            } else {
+                vec![finding(format!("C04|constructed|{}|error", kind), e, case)]
+            }
+        }
+        Ok(Ok(bad)) => bad.into_iter().map(|(t, d)| finding(format!("C04|constructed|{}|{}", kind, t), d, case.clone())).collect(),
+    }
+}
+
 pub fn run(ctx: &Ctx) {
     let thorough = ctx.tier == crate::engine::Tier::Thorough;
     ctx.set_rule("packets (header/record/question families with <= 1 deviation, section shapes, a 1/16 stride (quick) or 1/2 stride (thorough) of the 4-slot name-sharing space) x {plain, compressed} x writer configurations: Vec, growable cursor over 11 prefill/start combinations, fixed cursor at offsets 0 and 2 and fixed slice at every capacity 0..=len+2, chunking writers {1,2,7}, failing writer at every byte 0..=len; (a) output decoded strictly by the reference decoder, (b) bytes equal the vector-returning function and nothing outside them changes, (c) too small or failing => Err, enough room => Ok. non-trivial = packet has at least one record");
@@ -376,6 +453,43 @@ pub fn run(ctx: &Ctx) {
             }
         }
     });
+    // the full size sweep with the cheaper writer set
+    let sweep = gen::size_sweep_packets();
+    let schunks: Vec<(usize, &[RefPacket])> = sweep.chunks(64).enumerate().collect();
+    par_shards(ctx, &schunks, |(ci, ps), t: &mut Tally| {
+        for (j, p) in ps.iter().enumerate() {
+            t.evals += 1;
+            t.nontrivial += 1;
+            t.transitions += 120;
+            let f = check_packet(p, &|| json!({"kind": "packet", "packet": p, "sweep": ci * 64 + j}), false);
+            t.outcome(if f.is_empty() { "agree" } else { "disagree" });
+            if !f.is_empty() {
+                ctx.violations(f);
+            }
+        }
+    });
+    ctx.space("size sweep: every string length 0..=255, tail length 0..=600, label count 1..=127, label length 1..=63, name length 3..=255, list sizes, 2..400 distinct repeated names, through the non-quadratic writer configurations", sweep.len() as u64, "complete");
+    // other constructors
+    let mut cons: Vec<(&str, usize)> = Vec::new();
+    cons.extend((0..=1400usize).map(|n| ("txt-from-str", n)));
+    cons.extend((0..=700usize).map(|n| ("txt-from-str-utf8", n)));
+    cons.extend((0..=60usize).map(|n| ("txt-from-map", n)));
+    cons.extend((0..=80usize).map(|n| ("txt-strings", n)));
+    let cchunks: Vec<&[(&str, usize)]> = cons.chunks(64).collect();
+    par_shards(ctx, &cchunks, |cs, t: &mut Tally| {
+        for (k, n) in cs.iter() {
+            t.evals += 1;
+            t.nontrivial += 1;
+            t.transitions += 3;
+            let f = check_constructed(k, *n);
+            t.outcome(if f.is_empty() { "agree" } else { "disagree" });
+            if !f.is_empty() {
+                ctx.violations(f);
+            }
+        }
+    });
+    ctx.space("other constructors: TXT::try_from(&str) for every length 0..=1400 (ASCII) and 0..=700 characters (mixed UTF-8), TXT from attribute maps of 0..=60 entries, TXT of 0..=80 strings; framing of the TXT record and of the record after it", cons.len() as u64, "complete");
+    ctx.sample(json!({"kind": "constructed", "ctor": "txt-from-str", "n": 509}));
     // non-initial states: parsed, then edited
     let edits: Vec<(usize, u8)> = (0..n1).flat_map(|i| (0u8..8).map(move |e| (i, e))).collect();
     let echunks: Vec<&[(usize, u8)]> = edits.chunks(256).collect();
@@ -401,6 +515,7 @@ pub fn run(ctx: &Ctx) {
 
 pub fn replay(case: &Value) -> Vec<Finding> {
     match serde_json::from_value::<RefPacket>(case["packet"].clone()) {
+        _ if case["kind"].as_str() == Some("constructed") => check_constructed(case["ctor"].as_str().unwrap_or(""), case["n"].as_u64().unwrap_or(0) as usize),
         Ok(p) if case["kind"].as_str() == Some("parse-edit") => check_parse_edit(&p, case["edit"].as_u64().unwrap_or(0) as u8),
         Ok(p) => check_packet(&p, &|| case.clone(), true),
         Err(e) => vec![finding("C04|replay-unreadable", format!("{}", e), case.clone())],
